@@ -4,8 +4,7 @@
   append position, and decodes to the block), the cache / queue half (an unwritten block is cached and is never
   evicted; a queue entry that will be written carries the block's bytes), preserved by every operation.
 -/
-import GocoinV.Proofs.C16Inv
-import GocoinV.Spec.BlockStoreMap
+import GocoinV.Proofs.C16Retain
 namespace GocoinV.BlockDB
 
 /-! ### pwrite: what a positioned write leaves in the file -/
@@ -151,39 +150,56 @@ structure EnvOK (env : Env) : Prop where
 
 /-- the data-file half: the record's byte range lies inside its data file and decodes to the block -/
 def DataOK (env : Env) (fs : FS) (r : Rec) (raw : Bytes) : Prop :=
-  r.blen ≠ 0 ∧ ∃ file, AL.get fs.dats r.datfileidx = some file ∧ r.fpos + r.blen ≤ file.length ∧
+  r.blen ≠ 0 ∧ ∃ file, fileOf fs r.datfileidx = some file ∧ r.fpos + r.blen ≤ file.length ∧
     decodeStored env r ((file.drop r.fpos).take r.blen) = (raw, none)
 
 structure Ref (env : Env) (s : State) (sp : Spec) : Prop where
   opn : sp.isOpen = s.isOpen
-  keep : s.opts.keep = 0
+  /-- the data file that is being appended to exists in the main directory -/
+  cur : s.isOpen = true → ∃ f, AL.get s.fs.dats s.maxdatfileidx = some f
   idxspec : ∀ k r, AL.get s.index k = some r → ∃ e, AL.get sp.m k = some e
   pos : ∀ k r, AL.get s.index k = some r →
     r.datfileidx ≤ s.maxdatfileidx ∧ (r.datfileidx = s.maxdatfileidx → r.fpos + r.blen ≤ s.maxdatfilepos)
   cacheidx : ∀ k c, AL.get s.cache k = some c → ∃ r, AL.get s.index k = some r
-  cachedata : ∀ k c e, AL.get s.cache k = some c → AL.get sp.m k = some e → e.tainted = false → c.data = e.raw
+  /-- a cached block is the stored one — unless a `BlockGet` read it from a data file that had left retention / was shadowed
+      (the record then stays lost for good: `keyLost` is monotone) -/
+  cachedata : ∀ k c e, AL.get s.cache k = some c → AL.get sp.m k = some e → e.tainted = false → keyLost s k = false →
+    c.data = e.raw
   qseq : ∀ b ∈ s.queue, b.seq < s.nextSeq
   qdata : ∀ b ∈ s.queue, ∀ r e, AL.get s.index b.idx = some r → r.seq = b.seq → r.ipos = none →
     AL.get sp.m b.idx = some e → e.tainted = false → b.data = e.raw
   ent : ∀ k e, AL.get sp.m k = some e → e.tainted = false →
     ∃ r, AL.get s.index k = some r ∧ r.trusted = e.trusted ∧ r.olen = e.raw.length ∧ (80 ≤ e.raw.length ∧ e.raw.length ≤ 0xffffffff) ∧
-      (r.ipos = none → ∃ c, AL.get s.cache k = some c) ∧ (r.ipos.isSome = true → DataOK env s.fs r e.raw)
+      (r.ipos = none → ∃ c, AL.get s.cache k = some c) ∧
+      (r.ipos.isSome = true → s.fs.lost.contains r.datfileidx = false → DataOK env s.fs r e.raw)
 
-theorem DataOK_congr (env : Env) (fs fs' : FS) (r r' : Rec) (raw : Bytes) (hd : fs'.dats = fs.dats)
+theorem DataOK_congr (env : Env) (fs fs' : FS) (r r' : Rec) (raw : Bytes) (hd : fs'.dats = fs.dats) (ho : fs'.olds = fs.olds)
     (h1 : r'.fpos = r.fpos) (h2 : r'.blen = r.blen) (h3 : r'.datfileidx = r.datfileidx)
     (h4 : r'.compressed = r.compressed) (h5 : r'.snappied = r.snappied) (h : DataOK env fs r raw) :
     DataOK env fs' r' raw := by
-  unfold DataOK at *
+  unfold DataOK fileOf at *
   unfold decodeStored at *
-  rw [h1, h2, h3, h4, h5, hd]
+  rw [h1, h2, h3, h4, h5, hd, ho]
   exact h
+
+theorem keyLost_of (s : State) (k : Key) (r : Rec) (hr : AL.get s.index k = some r) :
+    keyLost s k = (r.ipos.isSome && s.fs.lost.contains r.datfileidx) := by
+  unfold keyLost; rw [hr]
+
+theorem keyLost_none (s : State) (k : Key) (hr : AL.get s.index k = none) : keyLost s k = false := by
+  unfold keyLost; rw [hr]
+
+theorem keyLost_congr (s s' : State) (k : Key) (hi : AL.get s'.index k = AL.get s.index k) (hl : s'.fs.lost = s.fs.lost) :
+    keyLost s' k = keyLost s k := by
+  unfold keyLost; rw [hi, hl]
 
 /-- the index record of key `k` is replaced by one with the same disk fields, and / or the specification changes at `k`
     in a compatible way; cache, queue, data files, positions unchanged -/
 theorem ref_update (env : Env) (s s' : State) (sp sp' : Spec) (h : Ref env s sp) (k : Key) (r0 r' : Rec)
     (hr : AL.get s.index k = some r0)
     (hidx : ∀ k', AL.get s'.index k' = if k = k' then some r' else AL.get s.index k')
-    (f1 : s'.cache = s.cache) (f2 : s'.queue = s.queue) (f3 : s'.fs.dats = s.fs.dats) (f4 : s'.opts = s.opts)
+    (f1 : s'.cache = s.cache) (f2 : s'.queue = s.queue)
+    (f3 : s'.fs.dats = s.fs.dats ∧ s'.fs.olds = s.fs.olds ∧ s'.fs.lost = s.fs.lost) (_f4 : s'.opts = s.opts)
     (f5 : s'.isOpen = s.isOpen) (f6 : s'.nextSeq = s.nextSeq) (f7 : s'.maxdatfilepos = s.maxdatfilepos)
     (f8 : s'.maxdatfileidx = s.maxdatfileidx)
     (g1 : r'.fpos = r0.fpos) (g2 : r'.blen = r0.blen) (g3 : r'.datfileidx = r0.datfileidx)
@@ -193,7 +209,13 @@ theorem ref_update (env : Env) (s s' : State) (sp sp' : Spec) (h : Ref env s sp)
     (hk : ∀ e', AL.get sp'.m k = some e' → e'.tainted = false →
       ∃ e, AL.get sp.m k = some e ∧ e.tainted = false ∧ e.raw = e'.raw ∧ r'.trusted = e'.trusted ∧ r'.olen = r0.olen)
     (hex : ∃ e', AL.get sp'.m k = some e') : Ref env s' sp' := by
-  refine ⟨by rw [hopen, f5]; exact h.opn, by rw [f4]; exact h.keep, ?_, ?_, ?_, ?_, ?_, ?_, ?_⟩
+  have hkl_eq : ∀ k', keyLost s' k' = keyLost s k' := by
+    intro k'
+    by_cases hkk : k = k'
+    · subst hkk
+      rw [keyLost_of s' k r' (by rw [hidx, if_pos rfl]), keyLost_of s k r0 hr, g6, g3, f3.2.2]
+    · exact keyLost_congr s s' k' (by rw [hidx, if_neg hkk]) f3.2.2
+  refine ⟨by rw [hopen, f5]; exact h.opn, by rw [f5, f3.1, f8]; exact h.cur, ?_, ?_, ?_, ?_, ?_, ?_, ?_⟩
   · intro k' r hh
     rw [hidx] at hh
     split at hh
@@ -213,13 +235,14 @@ theorem ref_update (env : Env) (s s' : State) (sp sp' : Spec) (h : Ref env s sp)
     split
     · exact ⟨_, rfl⟩
     · exact ⟨r, hr'⟩
-  · intro k' c e' hc he' ht
+  · intro k' c e' hc he' ht hkl
     rw [f1] at hc
+    rw [hkl_eq] at hkl
     by_cases hkk : k = k'
     · subst hkk
       obtain ⟨e, he, hte, hraw, _, _⟩ := hk e' he' ht
-      rw [← hraw]; exact h.cachedata k c e hc he hte
-    · rw [hm k' hkk] at he'; exact h.cachedata k' c e' hc he' ht
+      rw [← hraw]; exact h.cachedata k c e hc he hte hkl
+    · rw [hm k' hkk] at he'; exact h.cachedata k' c e' hc he' ht hkl
   · intro b hb; rw [f2] at hb; rw [f6]; exact h.qseq b hb
   · intro b hb r e' hri hseq hip he' ht
     rw [f2] at hb
@@ -242,36 +265,39 @@ theorem ref_update (env : Env) (s s' : State) (sp sp' : Spec) (h : Ref env s sp)
       rw [hr] at hr1; simp only [Option.some.injEq] at hr1; subst hr1
       refine ⟨r', by rw [hidx]; simp, htr, by rw [hol, hr3, hraw], by rw [← hraw]; exact hr4, ?_, ?_⟩
       · intro hn; rw [f1]; exact hr5 (by rw [← g6]; exact hn)
-      · intro hn
+      · intro hn hl
         rw [← hraw]
-        exact DataOK_congr env s.fs s'.fs r0 r' e.raw f3 g1 g2 g3 g4 g5 (hr6 (by rw [← g6]; exact hn))
+        exact DataOK_congr env s.fs s'.fs r0 r' e.raw f3.1 f3.2.1 g1 g2 g3 g4 g5
+          (hr6 (by rw [← g6]; exact hn) (by rw [← g3, ← f3.2.2]; exact hl))
     · rw [hm k' hkk] at he'
       obtain ⟨r, hr1, hr2, hr3, hr4, hr5, hr6⟩ := h.ent k' e' he' ht
       refine ⟨r, by rw [hidx, if_neg hkk]; exact hr1, hr2, hr3, hr4, ?_, ?_⟩
       · intro hn; rw [f1]; exact hr5 hn
-      · intro hn
-        exact DataOK_congr env s.fs s'.fs r r e'.raw f3 rfl rfl rfl rfl rfl (hr6 hn)
+      · intro hn hl
+        exact DataOK_congr env s.fs s'.fs r r e'.raw f3.1 f3.2.1 rfl rfl rfl rfl rfl (hr6 hn (by rw [← f3.2.2]; exact hl))
 
 /-- only the cache changes: same keys, same data -/
 theorem ref_cache (env : Env) (s s' : State) (sp : Spec) (h : Ref env s sp)
-    (f0 : s'.index = s.index) (f2 : s'.queue = s.queue) (f3 : s'.fs = s.fs) (f4 : s'.opts = s.opts)
+    (f0 : s'.index = s.index) (f2 : s'.queue = s.queue) (f3 : s'.fs = s.fs) (_f4 : s'.opts = s.opts)
     (f5 : s'.isOpen = s.isOpen) (f6 : s'.nextSeq = s.nextSeq) (f7 : s'.maxdatfilepos = s.maxdatfilepos)
     (f8 : s'.maxdatfileidx = s.maxdatfileidx)
     (c1 : ∀ k' c', AL.get s'.cache k' = some c' → (∃ c, AL.get s.cache k' = some c ∧ c.data = c'.data) ∨
-        ((∃ r, AL.get s.index k' = some r) ∧ ∀ e, AL.get sp.m k' = some e → e.tainted = false → c'.data = e.raw))
+        ((∃ r, AL.get s.index k' = some r) ∧
+          ∀ e, AL.get sp.m k' = some e → e.tainted = false → keyLost s k' = false → c'.data = e.raw))
     (c2 : ∀ k' c r, AL.get s.cache k' = some c → AL.get s.index k' = some r → r.ipos = none →
         ∃ c', AL.get s'.cache k' = some c') : Ref env s' sp := by
-  refine ⟨by rw [f5]; exact h.opn, by rw [f4]; exact h.keep, by rw [f0]; exact h.idxspec,
+  refine ⟨by rw [f5]; exact h.opn, by rw [f5, f3, f8]; exact h.cur, by rw [f0]; exact h.idxspec,
     by rw [f0, f7, f8]; exact h.pos, ?_, ?_, by rw [f2, f6]; exact h.qseq, by rw [f2, f0]; exact h.qdata, ?_⟩
   · intro k c hc
     rw [f0]
     rcases c1 k c hc with ⟨c0, hc0, _⟩ | ⟨hr, _⟩
     · exact h.cacheidx k c0 hc0
     · exact hr
-  · intro k c e hc he ht
+  · intro k c e hc he ht hkl
+    rw [keyLost_congr s s' k (by rw [f0]) (by rw [f3])] at hkl
     rcases c1 k c hc with ⟨c0, hc0, hd⟩ | ⟨_, hd⟩
-    · rw [← hd]; exact h.cachedata k c0 e hc0 he ht
-    · exact hd e he ht
+    · rw [← hd]; exact h.cachedata k c0 e hc0 he ht hkl
+    · exact hd e he ht hkl
   · intro k e he ht
     obtain ⟨r, hr1, hr2, hr3, hr4, hr5, hr6⟩ := h.ent k e he ht
     refine ⟨r, by rw [f0]; exact hr1, hr2, hr3, hr4, ?_, by rw [f3]; exact hr6⟩
@@ -286,14 +312,14 @@ theorem evictable_none (index : List (Key × Rec)) (k : Key) (r : Rec) (h : AL.g
 /-- `addToCache s k d` for a key that is in the index, with the block's own bytes -/
 theorem addToCache_ref (env : Env) (s : State) (sp : Spec) (h : Ref env s sp) (k : Key) (d : Bytes)
     (hr : ∃ r, AL.get s.index k = some r)
-    (hd : ∀ e, AL.get sp.m k = some e → e.tainted = false → d = e.raw) : Ref env (addToCache s k d) sp := by
+    (hd : ∀ e, AL.get sp.m k = some e → e.tainted = false → keyLost s k = false → d = e.raw) : Ref env (addToCache s k d) sp := by
   obtain ⟨g1, g2, g3, g4, g5, g6, g7, g8, _⟩ := addToCache_fields s k d
   obtain ⟨a1, a2, _⟩ := addToCache_cache s k d
   refine ref_cache env s _ sp h g1 g2 g3 g4 g5 g6 g7 g8 ?_ ?_
   · intro k' c' hc
     rcases a1 k' c' hc with hh | ⟨e1, e2, _⟩
     · exact .inl hh
-    · subst e1; exact .inr ⟨hr, fun e he ht => by rw [e2]; exact hd e he ht⟩
+    · subst e1; exact .inr ⟨hr, fun e he ht hkl => by rw [e2]; exact hd e he ht hkl⟩
   · intro k' c r hc hri hn
     exact a2 k' c hc (evictable_none s.index k' r hri hn)
 
@@ -301,34 +327,73 @@ theorem addToCache_ref (env : Env) (s : State) (sp : Spec) (h : Ref env s sp) (k
 
 theorem ref_pop (env : Env) (s : State) (sp : Spec) (h : Ref env s sp) (b : B2W) (q : List B2W) (hq : s.queue = b :: q) (n : Nat) :
     Ref env { s with queue := q, datToWrite := n } sp :=
-  ⟨h.opn, h.keep, h.idxspec, h.pos, h.cacheidx, h.cachedata,
+  ⟨h.opn, h.cur, h.idxspec, h.pos, h.cacheidx, h.cachedata,
     fun b' hb' => h.qseq b' (by rw [hq]; simp [hb']),
     fun b' hb' => h.qdata b' (by rw [hq]; simp [hb']), h.ent⟩
 
+theorem DataOK_keeps (env : Env) (fs fs' : FS) (r : Rec) (raw : Bytes) (hk : Keeps fs fs') (h : DataOK env fs r raw)
+    (hl : fs'.lost.contains r.datfileidx = false) : DataOK env fs' r raw := by
+  obtain ⟨d1, file, d2, d3, d4⟩ := h
+  exact ⟨d1, file, (hk _ hl).2 file d2, d3, d4⟩
+
+/-- the roll-over of `writeOne` — `os.Create` of the next data file, then `removeDatFile(maxdatfileidx - keep)` (delete, or
+    rename into oldat/): every record that is still within retention keeps its bytes; the new current file exists -/
 theorem maybeRoll_ref (env : Env) (s : State) (sp : Spec) (h : Ref env s sp) (n : Nat) :
     Ref env (maybeRoll s n) sp ∧ (maybeRoll s n).index = s.index ∧ (maybeRoll s n).queue = s.queue
-      ∧ (maybeRoll s n).opts = s.opts := by
+      ∧ (maybeRoll s n).opts = s.opts ∧ (maybeRoll s n).isOpen = s.isOpen := by
   unfold maybeRoll
   split
   · unfold rollOver
-    have hk : ¬ (s.opts.keep ≠ 0 ∧ s.maxdatfileidx ≥ s.opts.keep) := by rw [h.keep]; simp
-    simp only [hk, ↓reduceIte]
-    refine ⟨⟨h.opn, h.keep, h.idxspec, ?_, h.cacheidx, h.cachedata, h.qseq, h.qdata, ?_⟩, by simp⟩
+    generalize hfs1 : ({ s.fs with dats := AL.set s.fs.dats (s.maxdatfileidx + 1) [] } : FS) = fs1
+    have k12 : Keeps fs1 (if s.opts.keep ≠ 0 ∧ s.maxdatfileidx ≥ s.opts.keep
+        then removeDatFile s.opts fs1 (s.maxdatfileidx - s.opts.keep) else fs1) := by
+      split
+      · exact removeDatFile_keeps _ _ _
+      · exact Keeps.refl _
+    have hcur : AL.get (if s.opts.keep ≠ 0 ∧ s.maxdatfileidx ≥ s.opts.keep
+        then removeDatFile s.opts fs1 (s.maxdatfileidx - s.opts.keep) else fs1).dats (s.maxdatfileidx + 1) = some [] := by
+      have : AL.get fs1.dats (s.maxdatfileidx + 1) = some [] := by rw [← hfs1]; simp only [AL.get_set, ↓reduceIte]
+      split
+      · rw [removeDatFile_dats_other _ _ _ _ (by omega)]; exact this
+      · exact this
+    simp only [hfs1]
+    generalize (if s.opts.keep ≠ 0 ∧ s.maxdatfileidx ≥ s.opts.keep
+        then removeDatFile s.opts fs1 (s.maxdatfileidx - s.opts.keep) else fs1) = fs2 at k12 hcur
+    refine ⟨⟨h.opn, fun _ => ⟨[], hcur⟩, h.idxspec, ?_, h.cacheidx, ?_, h.qseq, h.qdata, ?_⟩, by simp⟩
     · intro k r hr
       have := h.pos k r hr
       simp only
       omega
+    · intro k c e hc he ht hkl
+      refine h.cachedata k c e hc he ht ?_
+      cases hr : AL.get s.index k with
+      | none => exact keyLost_none s k hr
+      | some r =>
+        unfold keyLost at hkl
+        simp only [hr] at hkl
+        rw [keyLost_of s k r hr]
+        cases hi : r.ipos.isSome with
+        | false => rfl
+        | true =>
+          rw [hi, Bool.true_and] at hkl
+          have := (k12 _ hkl).1
+          rw [← hfs1] at this
+          rw [Bool.true_and]; exact this
     · intro k e he ht
       obtain ⟨r, hr1, hr2, hr3, hr4, hr5, hr6⟩ := h.ent k e he ht
       refine ⟨r, hr1, hr2, hr3, hr4, hr5, ?_⟩
-      intro hn
-      obtain ⟨d1, file, d2, d3, d4⟩ := hr6 hn
-      refine ⟨d1, file, ?_, d3, d4⟩
-      simp only [AL.get_set]
+      intro hn hl
+      have hl1 := (k12 _ hl).1
+      have hl0 : s.fs.lost.contains r.datfileidx = false := by rw [← hfs1] at hl1; exact hl1
+      obtain ⟨d1, file, d2, d3, d4⟩ := hr6 hn hl0
       have := (h.pos k r hr1).1
+      refine DataOK_keeps env fs1 fs2 r e.raw k12 ⟨d1, file, ?_, d3, d4⟩ hl
+      rw [← hfs1]
+      unfold fileOf at d2 ⊢
+      simp only [AL.get_set]
       rw [if_neg (by omega)]
       exact d2
-  · exact ⟨h, rfl, rfl, rfl⟩
+  · exact ⟨h, rfl, rfl, rfl, rfl⟩
 
 theorem decodeStored_written (env : Env) (ok : EnvOK env) (r : Rec) (c : Bool) (raw : Bytes)
     (h1 : r.compressed = c) (h2 : r.snappied = c) (hb : raw.length ≤ 0xffffffff) :
@@ -340,12 +405,14 @@ theorem decodeStored_written (env : Env) (ok : EnvOK env) (r : Rec) (c : Bool) (
 
 /-- `writeOne`'s record write keeps the relation: the new range is read back as written, older ranges are untouched -/
 theorem writeRecord_ref (env : Env) (ok : EnvOK env) (s : State) (sp : Spec) (h : Ref env s sp) (b : B2W) (r0 : Rec)
-    (hr0 : AL.get s.index b.idx = some r0) (_hn0 : r0.ipos = none)
+    (hr0 : AL.get s.index b.idx = some r0) (hn0 : r0.ipos = none) (ho : s.isOpen = true)
     (hdat : ∀ e, AL.get sp.m b.idx = some e → e.tainted = false → b.data = e.raw) :
     Ref env (writeRecord s b r0 (if s.opts.compress = true then env.enc b.data else b.data)) sp := by
   generalize hcb : (if s.opts.compress = true then env.enc b.data else b.data) = cbts
+  obtain ⟨fcur, hfcur⟩ := h.cur ho
   unfold writeRecord
-  refine ⟨h.opn, h.keep, ?_, ?_, ?_, h.cachedata, h.qseq, ?_, ?_⟩
+  refine ⟨h.opn, fun _ => ⟨pwrite ((AL.get s.fs.dats s.maxdatfileidx).getD []) s.maxdatfilepos cbts, by simp only [AL.get_set, ↓reduceIte]⟩,
+    ?_, ?_, ?_, ?_, h.qseq, ?_, ?_⟩
   · intro k r hr
     simp only [AL.get_set] at hr
     split at hr
@@ -364,6 +431,12 @@ theorem writeRecord_ref (env : Env) (ok : EnvOK env) (s : State) (sp : Spec) (h 
     split
     · exact ⟨_, rfl⟩
     · exact ⟨r, hr⟩
+  · intro k c e hc he ht hkl
+    refine h.cachedata k c e hc he ht ?_
+    by_cases hk : b.idx = k
+    · subst hk; rw [keyLost_of s _ r0 hr0, hn0]; rfl
+    · rw [← hkl]; symm
+      exact keyLost_congr s _ k (by simp only [AL.get_set, if_neg hk]) rfl
   · intro b' hb' r e hri hseq hip he ht
     simp only [AL.get_set] at hri
     split at hri
@@ -379,31 +452,36 @@ theorem writeRecord_ref (env : Env) (ok : EnvOK env) (s : State) (sp : Spec) (h 
       refine ⟨{ r0 with compressed := s.opts.compress, snappied := s.opts.compress, blen := cbts.length,
                         datfileidx := s.maxdatfileidx, fpos := s.maxdatfilepos, ipos := some s.maxidxfilepos },
         by simp only [AL.get_set]; simp, hr2, hr3, hr4, by simp, ?_⟩
-      intro _
+      intro _ _
       have hne : cbts ≠ [] := by
         rw [← hcb]
         split
         · exact ok.ne _
         · intro hh; rw [hraw] at hh; rw [hh] at hr4; simp at hr4
       refine ⟨by simpa using hne, pwrite ((AL.get s.fs.dats s.maxdatfileidx).getD []) s.maxdatfilepos cbts, ?_, ?_, ?_⟩
-      · simp only [AL.get_set]; simp
+      · apply fileOf_dats; simp only [AL.get_set]; simp
       · exact pwrite_length_ge _ _ _
       · simp only [pwrite_read]
         rw [← hcb, hraw]
         exact decodeStored_written env ok _ s.opts.compress e.raw rfl rfl hr4.2
     · refine ⟨r, by simp only [AL.get_set]; rw [if_neg hk]; exact hr1, hr2, hr3, hr4, hr5, ?_⟩
-      intro hn
-      obtain ⟨d1, file, d2, d3, d4⟩ := hr6 hn
+      intro hn hl
+      obtain ⟨d1, file, d2, d3, d4⟩ := hr6 hn hl
       by_cases hf : s.maxdatfileidx = r.datfileidx
       · have hp := (h.pos k r hr1).2 hf.symm
+        have hfile : file = fcur := by
+          rw [← hf, fileOf_dats _ _ _ hfcur] at d2; exact (Option.some.inj d2).symm
+        subst hfile
         refine ⟨d1, pwrite file s.maxdatfilepos cbts, ?_, ?_, ?_⟩
-        · simp only [AL.get_set]; rw [if_pos hf, hf, d2]; simp
+        · apply fileOf_dats; simp only [AL.get_set]; rw [if_pos hf, hfcur]; simp
         · have := pwrite_length_ge' file s.maxdatfilepos cbts; omega
         · rw [pwrite_keep _ _ _ _ _ hp d3]; exact d4
-      · exact ⟨d1, file, by simp only [AL.get_set]; rw [if_neg hf]; exact d2, d3, d4⟩
+      · refine ⟨d1, file, ?_, d3, d4⟩
+        unfold fileOf at d2 ⊢
+        simp only [AL.get_set]; rw [if_neg hf]; exact d2
 
-theorem writeOne_ref (env : Env) (ok : EnvOK env) (s s' : State) (sp : Spec) (h : Ref env s sp)
-    (hw : writeOne env s = some s') : Ref env s' sp := by
+theorem writeOne_ref (env : Env) (ok : EnvOK env) (s s' : State) (sp : Spec) (h : Ref env s sp) (ho : s.isOpen = true)
+    (hw : writeOne env s = some s') : Ref env s' sp ∧ s'.isOpen = true := by
   unfold writeOne at hw
   split at hw
   · cases hw
@@ -411,10 +489,10 @@ theorem writeOne_ref (env : Env) (ok : EnvOK env) (s s' : State) (sp : Spec) (h 
     have h0 := ref_pop env s sp h b q hq (s.datToWrite - b.data.length)
     simp only at hw
     split at hw
-    · cases hw; exact h0
+    · cases hw; exact ⟨h0, ho⟩
     · rename_i r0 hr0
       split at hw
-      · cases hw; exact h0
+      · cases hw; exact ⟨h0, ho⟩
       · rename_i hc
         simp only [Option.some.injEq] at hw
         subst hw
@@ -426,28 +504,33 @@ theorem writeOne_ref (env : Env) (ok : EnvOK env) (s s' : State) (sp : Spec) (h 
           cases hh : r0.ipos with
           | none => rfl
           | some p => exact absurd (Or.inr (by simp [hh])) hc
-        obtain ⟨m1, m2, _, m4⟩ := maybeRoll_ref env _ sp h0
+        obtain ⟨m1, m2, _, m4, m5⟩ := maybeRoll_ref env _ sp h0
           (if s.opts.compress = true then env.enc b.data else b.data).length
-        have key := writeRecord_ref env ok _ sp m1 b r0 (by rw [m2]; exact hr0) hip
+        have key := writeRecord_ref env ok _ sp m1 b r0 (by rw [m2]; exact hr0) hip (by rw [m5]; exact ho)
           (fun e he ht => h.qdata b (by rw [hq]; simp) r0 e hr0 hseq hip he ht)
         rw [m4] at key
-        exact key
+        refine ⟨key, ?_⟩
+        unfold writeRecord
+        simp only
+        rw [m5]; exact ho
 
-theorem writeAll_ref (env : Env) (ok : EnvOK env) (sp : Spec) : ∀ (f : Nat) (s : State), Ref env s sp →
+theorem writeAll_ref (env : Env) (ok : EnvOK env) (sp : Spec) : ∀ (f : Nat) (s : State), Ref env s sp → s.isOpen = true →
     Ref env (writeAll env f s) sp := by
   intro f
   induction f with
-  | zero => intro s h; exact h
+  | zero => intro s h _; exact h
   | succ f ih =>
-    intro s h
+    intro s h ho
     unfold writeAll
     split
     · exact h
     · rename_i s' hw
-      exact ih s' (writeOne_ref env ok s s' sp h hw)
+      obtain ⟨a, b⟩ := writeOne_ref env ok s s' sp h ho hw
+      exact ih s' a b
 
-theorem flush_ref (env : Env) (ok : EnvOK env) (s : State) (sp : Spec) (h : Ref env s sp) : Ref env (flush env s) sp :=
-  writeAll_ref env ok sp _ s h
+theorem flush_ref (env : Env) (ok : EnvOK env) (s : State) (sp : Spec) (h : Ref env s sp) (ho : s.isOpen = true) :
+    Ref env (flush env s) sp :=
+  writeAll_ref env ok sp _ s h ho
 
 /-! ### flag updates -/
 
@@ -458,18 +541,18 @@ theorem ref_spec (env : Env) (s : State) (sp sp' : Spec) (h : Ref env s sp) (k :
     (hk : ∀ e', AL.get sp'.m k = some e' → e'.tainted = false →
       ∃ e, AL.get sp.m k = some e ∧ e.tainted = false ∧ e.raw = e'.raw ∧ e.trusted = e'.trusted)
     (hex : ∀ e, AL.get sp.m k = some e → ∃ e', AL.get sp'.m k = some e') : Ref env s sp' := by
-  refine ⟨by rw [hopen]; exact h.opn, h.keep, ?_, h.pos, h.cacheidx, ?_, h.qseq, ?_, ?_⟩
+  refine ⟨by rw [hopen]; exact h.opn, h.cur, ?_, h.pos, h.cacheidx, ?_, h.qseq, ?_, ?_⟩
   · intro k' r hr
     obtain ⟨e, he⟩ := h.idxspec k' r hr
     by_cases hkk : k = k'
     · subst hkk; exact hex e he
     · rw [hm k' hkk]; exact ⟨e, he⟩
-  · intro k' c e' hc he' ht
+  · intro k' c e' hc he' ht hkl
     by_cases hkk : k = k'
     · subst hkk
       obtain ⟨e, he, hte, hraw, _⟩ := hk e' he' ht
-      rw [← hraw]; exact h.cachedata k c e hc he hte
-    · rw [hm k' hkk] at he'; exact h.cachedata k' c e' hc he' ht
+      rw [← hraw]; exact h.cachedata k c e hc he hte hkl
+    · rw [hm k' hkk] at he'; exact h.cachedata k' c e' hc he' ht hkl
   · intro b hb r e' hri hseq hip he' ht
     by_cases hkk : k = b.idx
     · rw [← hkk] at he'
@@ -492,7 +575,8 @@ theorem setBlockFlag_fields (s : State) (k : Key) (r0 : Rec) (fl : Nat) :
     (∀ k', AL.get (setBlockFlag s k r0 fl).index k' =
         if k = k' then some { r0 with trusted := r0.trusted || fl == BLOCK_TRUSTED } else AL.get s.index k') ∧
     (setBlockFlag s k r0 fl).cache = s.cache ∧ (setBlockFlag s k r0 fl).queue = s.queue ∧
-    (setBlockFlag s k r0 fl).fs.dats = s.fs.dats ∧ (setBlockFlag s k r0 fl).opts = s.opts ∧
+    ((setBlockFlag s k r0 fl).fs.dats = s.fs.dats ∧ (setBlockFlag s k r0 fl).fs.olds = s.fs.olds ∧
+      (setBlockFlag s k r0 fl).fs.lost = s.fs.lost) ∧ (setBlockFlag s k r0 fl).opts = s.opts ∧
     (setBlockFlag s k r0 fl).isOpen = s.isOpen ∧ (setBlockFlag s k r0 fl).nextSeq = s.nextSeq ∧
     (setBlockFlag s k r0 fl).maxdatfilepos = s.maxdatfilepos ∧ (setBlockFlag s k r0 fl).maxdatfileidx = s.maxdatfileidx := by
   unfold setBlockFlag
@@ -538,7 +622,7 @@ theorem blockTrusted_ref (env : Env) (s : State) (sp sp' : Spec) (h : Ref env s 
 theorem ref_delete (env : Env) (s : State) (sp : Spec) (h : Ref env s sp) (k : Key)
     (ht : ∀ e, AL.get sp.m k = some e → e.tainted = true) :
     Ref env { s with cache := AL.del s.cache k, index := AL.del s.index k } sp := by
-  refine ⟨h.opn, h.keep, ?_, ?_, ?_, ?_, h.qseq, ?_, ?_⟩
+  refine ⟨h.opn, h.cur, ?_, ?_, ?_, ?_, h.qseq, ?_, ?_⟩
   · intro k' r hr
     simp only [AL.get_del] at hr
     split at hr
@@ -554,11 +638,14 @@ theorem ref_delete (env : Env) (s : State) (sp : Spec) (h : Ref env s sp) (k : K
     split at hc
     · cases hc
     · rename_i hne; rw [if_neg hne]; exact h.cacheidx k' c hc
-  · intro k' c e hc he hte
+  · intro k' c e hc he hte hkl
     simp only [AL.get_del] at hc
     split at hc
     · cases hc
-    · exact h.cachedata k' c e hc he hte
+    · rename_i hne
+      refine h.cachedata k' c e hc he hte ?_
+      rw [← hkl]; symm
+      exact keyLost_congr s _ k' (by simp only [AL.get_del, if_neg hne]) rfl
   · intro b hb r e hri
     simp only [AL.get_del] at hri
     split at hri
@@ -622,7 +709,7 @@ theorem addNew_ref (env : Env) (s : State) (sp sp' : Spec) (h : Ref env s sp) (k
   rw [← hs2] at g1 g2 g3 g4 g5 g6 g7 g8 a1 a2 a3
   have hix : ∀ k', AL.get s2.index k' = if k = k' then some { ipos := none, trusted := tr, olen := raw.length, seq := s.nextSeq } else AL.get s.index k' := by
     intro k'; rw [g1, e_idx, AL.get_set]
-  refine ⟨by rw [hopen]; simp only; rw [g5, e_open]; exact h.opn, by simp only; rw [g4, e_opts]; exact h.keep, ?_, ?_, ?_, ?_, ?_, ?_, ?_⟩
+  refine ⟨by rw [hopen]; simp only; rw [g5, e_open]; exact h.opn, by simp only; rw [g5, e_open, g3, e_fs, g8, e_mi]; exact h.cur, ?_, ?_, ?_, ?_, ?_, ?_, ?_⟩
   · intro k' r hr
     simp only [hix] at hr
     split at hr
@@ -644,7 +731,7 @@ theorem addNew_ref (env : Env) (s : State) (sp sp' : Spec) (h : Ref env s sp) (k
       · exact ⟨_, rfl⟩
       · exact ⟨r, hr⟩
     · rw [if_pos e1.symm]; exact ⟨_, rfl⟩
-  · intro k' c e' hc he' hte
+  · intro k' c e' hc he' hte hkl
     simp only at hc
     rcases a1 k' c hc with ⟨c0, hc0, hd⟩ | ⟨e1, e2, _⟩
     · rw [e_cache] at hc0
@@ -653,7 +740,9 @@ theorem addNew_ref (env : Env) (s : State) (sp sp' : Spec) (h : Ref env s sp) (k
         obtain ⟨r, hr⟩ := h.cacheidx k c0 hc0
         rw [hnone] at hr; cases hr
       rw [hm k' hne] at he'
-      rw [← hd]; exact h.cachedata k' c0 e' hc0 he' hte
+      rw [← hd]; refine h.cachedata k' c0 e' hc0 he' hte ?_
+      rw [← hkl]; symm
+      exact keyLost_congr s _ k' (by simp only [hix, if_neg hne]) (by simp only [g3, e_fs])
     · subst e1; rw [e2]; exact (hk e' he' hte).1.symm
   · intro b hb
     simp only [List.mem_append, List.mem_singleton] at hb
@@ -689,10 +778,10 @@ theorem addNew_ref (env : Env) (s : State) (sp sp' : Spec) (h : Ref env s sp) (k
         obtain ⟨c, hc⟩ := hr5 hn
         refine a2 k' c (by rw [e_cache]; exact hc) (evictable_none _ k' r ?_ hn)
         rw [e_idx, AL.get_set, if_neg hkk]; exact hr1
-      · intro hn
-        simp only [g3, e_fs]; exact hr6 hn
+      · intro hn hl
+        simp only [g3, e_fs] at hl ⊢; exact hr6 hn hl
 
-theorem blockAdd_ref (env : Env) (ok : EnvOK env) (s : State) (sp sp' : Spec) (h : Ref env s sp) (hash : Bytes)
+theorem blockAdd_ref (env : Env) (ok : EnvOK env) (s : State) (sp sp' : Spec) (h : Ref env s sp) (ho : s.isOpen = true) (hash : Bytes)
     (ht tx : Nat) (tr : Bool) (raw : Bytes) (hraw : 80 ≤ raw.length ∧ raw.length ≤ 0xffffffff)
     (hopen : sp'.isOpen = sp.isOpen)
     (hm : ∀ k', keyOf hash ≠ k' → AL.get sp'.m k' = AL.get sp.m k')
@@ -715,7 +804,7 @@ theorem blockAdd_ref (env : Env) (ok : EnvOK env) (s : State) (sp sp' : Spec) (h
         rw [hnone] at hr; cases hr
     have key := addNew_ref env s sp sp' h (keyOf hash) hnone raw ht tx tr hraw hopen hm hk hex _ rfl
     split
-    · exact flush_ref env ok _ sp' key
+    · exact flush_ref env ok _ sp' key (by simp only; rw [(addToCache_fields _ _ _).2.2.2.2.1]; exact ho)
     · exact key
   · rename_i r0 hr0
     obtain ⟨e0, he0⟩ := h.idxspec _ r0 hr0
@@ -724,7 +813,7 @@ theorem blockAdd_ref (env : Env) (ok : EnvOK env) (s : State) (sp sp' : Spec) (h
       simp only [Bool.and_eq_true, Bool.not_eq_eq_eq_not, Bool.not_true] at hc
       split
       · refine ref_update env s _ sp sp' h (keyOf hash) r0 { r0 with trusted := true } hr0 (fun k' => by simp only [AL.get_set])
-          rfl rfl rfl rfl rfl rfl rfl rfl rfl rfl rfl rfl rfl rfl rfl hopen hm ?_ hex
+          rfl rfl ⟨rfl, rfl, rfl⟩ rfl rfl rfl rfl rfl rfl rfl rfl rfl rfl rfl rfl hopen hm ?_ hex
         intro e' he' hte
         obtain ⟨h1, h2, h3⟩ := hold e0 he0 e' he'
         exact ⟨e0, he0, by rw [← h1]; exact hte, h2.symm, by rw [h3, hc.2]; simp, rfl⟩
@@ -747,13 +836,14 @@ theorem blockAdd_ref (env : Env) (ok : EnvOK env) (s : State) (sp sp' : Spec) (h
 
 theorem blockGet_ref (env : Env) (s : State) (sp : Spec) (h : Ref env s sp) (hash : Bytes) :
     Ref env (blockGet env s hash).1 sp ∧
-    (∀ e, AL.get sp.m (keyOf hash) = some e → e.tainted = false → (blockGet env s hash).2 = .data e.raw e.trusted) := by
+    (∀ e, AL.get sp.m (keyOf hash) = some e → e.tainted = false → keyLost s (keyOf hash) = false →
+      (blockGet env s hash).2 = .data e.raw e.trusted) := by
   unfold blockGet
   simp only
   split
   · rename_i hnone
     refine ⟨h, ?_⟩
-    intro e he hte
+    intro e he hte _
     obtain ⟨r, hr, _⟩ := h.ent _ e he hte
     rw [hnone] at hr; cases hr
   · rename_i r0 hr0
@@ -773,15 +863,15 @@ theorem blockGet_ref (env : Env) (s : State) (sp : Spec) (h : Ref env s sp) (has
           split
           · exact ⟨_, rfl⟩
           · exact ⟨c0, hc0⟩
-      · intro e he hte
+      · intro e he hte hkl
         obtain ⟨r, hr, hr2, _⟩ := h.ent _ e he hte
         rw [hr0] at hr; simp only [Option.some.injEq] at hr; subst hr
-        rw [h.cachedata _ c e hc he hte, hr2]
+        rw [h.cachedata _ c e hc he hte hkl, hr2]
     · rename_i hcn
       split
       · rename_i hin
         refine ⟨h, ?_⟩
-        intro e he hte
+        intro e he hte _
         obtain ⟨r, hr, _, _, _, hr5, _⟩ := h.ent _ e he hte
         rw [hr0] at hr; simp only [Option.some.injEq] at hr; subst hr
         obtain ⟨c, hc⟩ := hr5 (by simpa using hin)
@@ -791,70 +881,91 @@ theorem blockGet_ref (env : Env) (s : State) (sp : Spec) (h : Ref env s sp) (has
           cases hh : r0.ipos with
           | none => simp [hh] at hin
           | some p => rfl
+        have hlost : keyLost s (keyOf hash) = false → s.fs.lost.contains r0.datfileidx = false := by
+          intro hkl
+          unfold keyLost at hkl
+          rw [hr0] at hkl
+          simpa [hsome] using hkl
         split
         · rename_i hb0
           refine ⟨h, ?_⟩
-          intro e he hte
+          intro e he hte hkl
           obtain ⟨r, hr, _, _, _, _, hr6⟩ := h.ent _ e he hte
           rw [hr0] at hr; simp only [Option.some.injEq] at hr; subst hr
-          exact absurd hb0 (hr6 hsome).1
+          exact absurd hb0 (hr6 hsome (hlost hkl)).1
         · split
           · rename_i hnf
             refine ⟨h, ?_⟩
-            intro e he hte
+            intro e he hte hkl
             obtain ⟨r, hr, _, _, _, _, hr6⟩ := h.ent _ e he hte
             rw [hr0] at hr; simp only [Option.some.injEq] at hr; subst hr
-            obtain ⟨_, file, d2, _, _⟩ := hr6 hsome
+            obtain ⟨_, file, d2, _, _⟩ := hr6 hsome (hlost hkl)
+            unfold fileOf at d2
             rw [d2] at hnf; simp at hnf
           · rename_i file hfile
             split
             · rename_i hshort
               refine ⟨h, ?_⟩
-              intro e he hte
+              intro e he hte hkl
               obtain ⟨r, hr, _, _, _, _, hr6⟩ := h.ent _ e he hte
               rw [hr0] at hr; simp only [Option.some.injEq] at hr; subst hr
-              obtain ⟨_, file', d2, d3, _⟩ := hr6 hsome
+              obtain ⟨_, file', d2, d3, _⟩ := hr6 hsome (hlost hkl)
+              unfold fileOf at d2
               rw [d2] at hfile; simp at hfile; subst hfile
               omega
             · generalize hble : decodeStored env r0 (List.take r0.blen (List.drop r0.fpos file)) = ble
               obtain ⟨bl, err⟩ := ble
               simp only
-              have hbl : ∀ e, AL.get sp.m (keyOf hash) = some e → e.tainted = false → bl = e.raw ∧ err = none ∧ r0.trusted = e.trusted ∧ r0.olen ≠ 0 := by
+              have holen : ∀ e, AL.get sp.m (keyOf hash) = some e → e.tainted = false → r0.trusted = e.trusted ∧ r0.olen ≠ 0 := by
                 intro e he hte
+                obtain ⟨r, hr, hr2, hr3, hr4, _, _⟩ := h.ent _ e he hte
+                rw [hr0] at hr; simp only [Option.some.injEq] at hr; subst hr
+                exact ⟨hr2, by omega⟩
+              have hbl : ∀ e, AL.get sp.m (keyOf hash) = some e → e.tainted = false → s.fs.lost.contains r0.datfileidx = false →
+                  bl = e.raw ∧ err = none := by
+                intro e he hte hl
                 obtain ⟨r, hr, hr2, hr3, hr4, _, hr6⟩ := h.ent _ e he hte
                 rw [hr0] at hr; simp only [Option.some.injEq] at hr; subst hr
-                obtain ⟨_, file', d2, d3, d4⟩ := hr6 hsome
+                obtain ⟨_, file', d2, d3, d4⟩ := hr6 hsome hl
+                unfold fileOf at d2
                 rw [d2] at hfile; simp at hfile; subst hfile
                 rw [hble] at d4
                 simp only [Prod.mk.injEq] at d4
-                exact ⟨d4.1, d4.2, hr2, by omega⟩
+                exact ⟨d4.1, d4.2⟩
               have h1 : Ref env { s with index := AL.set s.index (keyOf hash) (if r0.olen = 0 then ({ r0 with olen := bl.length } : Rec) else r0) } sp := by
                 obtain ⟨e0, he0⟩ := h.idxspec _ r0 hr0
                 refine ref_update env s _ sp sp h (keyOf hash) r0 (if r0.olen = 0 then ({ r0 with olen := bl.length } : Rec) else r0) hr0
-                  (fun k' => by simp only [AL.get_set]) rfl rfl rfl rfl rfl rfl rfl rfl
+                  (fun k' => by simp only [AL.get_set]) rfl rfl ⟨rfl, rfl, rfl⟩ rfl rfl rfl rfl rfl
                   (by split <;> rfl) (by split <;> rfl) (by split <;> rfl) (by split <;> rfl) (by split <;> rfl) (by split <;> rfl) (by split <;> rfl)
                   rfl (fun _ _ => rfl) ?_ ⟨e0, he0⟩
                 intro e' he' hte
-                obtain ⟨_, _, h3, h4⟩ := hbl e' he' hte
+                obtain ⟨h3, h4⟩ := holen e' he' hte
                 exact ⟨e', he', hte, rfl, by rw [if_neg h4]; exact h3, by rw [if_neg h4]⟩
+              have hkl1 : keyLost ({ s with index := AL.set s.index (keyOf hash) (if r0.olen = 0 then ({ r0 with olen := bl.length } : Rec) else r0) } : State) (keyOf hash)
+                  = keyLost s (keyOf hash) := by
+                unfold keyLost
+                simp only [AL.get_set, ↓reduceIte, hr0]
+                split <;> rfl
               have h2 := addToCache_ref env _ sp h1 (keyOf hash) bl (by simp only [AL.get_set]; simp)
-                (fun e he hte => (hbl e he hte).1)
+                (fun e he hte hkl => (hbl e he hte (hlost (by rw [← hkl1]; exact hkl))).1)
               constructor
               · split <;> exact h2
-              · intro e he hte
-                obtain ⟨b1, b2, b3, _⟩ := hbl e he hte
+              · intro e he hte hkl
+                obtain ⟨b1, b2⟩ := hbl e he hte (hlost hkl)
+                obtain ⟨b3, _⟩ := holen e he hte
                 subst b2
                 simp only [b1, b3]
 
 theorem blockLength_ref (env : Env) (s : State) (sp : Spec) (h : Ref env s sp) (hash : Bytes) (d : Bool) :
     Ref env (blockLength env s hash d).1 sp ∧
-    (∀ e, AL.get sp.m (keyOf hash) = some e → e.tainted = false → (blockLength env s hash d).2 = .len e.raw.length) := by
+    (∀ e, AL.get sp.m (keyOf hash) = some e → e.tainted = false → keyLost s (keyOf hash) = false →
+      (blockLength env s hash d).2 = .len e.raw.length) := by
   unfold blockLength
   simp only
   split
   · rename_i hnone
     refine ⟨h, ?_⟩
-    intro e he hte
+    intro e he hte _
     obtain ⟨r, hr, _⟩ := h.ent _ e he hte
     rw [hnone] at hr; cases hr
   · rename_i r0 hr0
@@ -865,29 +976,29 @@ theorem blockLength_ref (env : Env) (s : State) (sp : Spec) (h : Ref env s sp) (
       exact ⟨hr3, by omega⟩
     split
     · refine ⟨h, ?_⟩
-      intro e he hte
+      intro e he hte _
       rw [(holen e he hte).1]
     · rename_i hz
       have hcontra : ∀ e, AL.get sp.m (keyOf hash) = some e → e.tainted = false → False := by
         intro e he hte
         exact hz (holen e he hte).2
       split
-      · exact ⟨h, fun e he hte => (hcontra e he hte).elim⟩
+      · exact ⟨h, fun e he hte _ => (hcontra e he hte).elim⟩
       · have := (blockGet_ref env s sp h hash).1
         generalize blockGet env s hash = res at this ⊢
         obtain ⟨s', out⟩ := res
-        cases out <;> exact ⟨this, fun e he hte => (hcontra e he hte).elim⟩
+        cases out <;> exact ⟨this, fun e he hte _ => (hcontra e he hte).elim⟩
 
 /-! ### one operation, a whole session -/
 
 theorem step_ref (env : Env) (ok : EnvOK env) (s : State) (sp : Spec) (h : Ref env s sp) (op : Op)
     (hno : op.isReopen = false) (hsz : op.sizeOK) :
-    Ref env (step env s op).1 (specStep sp op) ∧ (claim sp op).holds (step env s op).2 := by
+    Ref env (step env s op).1 (specStep sp op) ∧ (claimR s sp op).holds (step env s op).2 := by
   have hopn := h.opn
   cases op with
   | reopen o => simp [Op.isReopen] at hno
   | add hash ht tx tr raw =>
-    unfold step specStep claim
+    unfold step specStep claimR
     simp only
     by_cases ho : s.isOpen = true
     · simp only [ho, hopn, Bool.not_true, Bool.false_eq_true, ↓reduceIte]
@@ -898,7 +1009,7 @@ theorem step_ref (env : Env) (ok : EnvOK env) (s : State) (sp : Spec) (h : Ref e
         cases hsp : AL.get sp.m (keyOf hash) with
         | none =>
           simp only
-          refine blockAdd_ref env ok s sp _ h hash ht tx tr raw ⟨by omega, hsz⟩ (hopn.trans ho).symm
+          refine blockAdd_ref env ok s sp _ h ho hash ht tx tr raw ⟨by omega, hsz⟩ (hopn.trans ho).symm
             (fun k' hne => by simp only [AL.get_set, if_neg hne]) ?_ ?_ ⟨_, by rw [AL.get_set, if_pos rfl]⟩
           · intro _ e' he'
             simp only [AL.get_set, ↓reduceIte, Option.some.injEq] at he'
@@ -906,7 +1017,7 @@ theorem step_ref (env : Env) (ok : EnvOK env) (s : State) (sp : Spec) (h : Ref e
           · intro e he; rw [hsp] at he; cases he
         | some e0 =>
           simp only
-          refine blockAdd_ref env ok s sp _ h hash ht tx tr raw ⟨by omega, hsz⟩ (hopn.trans ho).symm
+          refine blockAdd_ref env ok s sp _ h ho hash ht tx tr raw ⟨by omega, hsz⟩ (hopn.trans ho).symm
             (fun k' hne => by simp only [AL.get_set, if_neg hne]) ?_ ?_ ⟨_, by rw [AL.get_set, if_pos rfl]⟩
           · intro hn; rw [hsp] at hn; cases hn
           · intro e he e' he'
@@ -915,37 +1026,49 @@ theorem step_ref (env : Env) (ok : EnvOK env) (s : State) (sp : Spec) (h : Ref e
             subst he'; exact ⟨rfl, rfl, rfl⟩
     · simp only [ho, hopn, Bool.not_false, ↓reduceIte]; exact ⟨h, trivial⟩
   | get hash =>
-    unfold step specStep claim
+    unfold step specStep claimR claim
     simp only
     by_cases ho : s.isOpen = true
     · simp only [ho, hopn, Bool.not_true, Bool.false_eq_true, ↓reduceIte]
       obtain ⟨g1, g2⟩ := blockGet_ref env s sp h hash
       refine ⟨g1, ?_⟩
-      cases hsp : AL.get sp.m (keyOf hash) with
-      | none => trivial
-      | some e =>
-        simp only
-        cases hte : e.tainted with
-        | true => trivial
-        | false => exact g2 e hsp hte
-    · simp only [ho, hopn, Bool.not_false, ↓reduceIte]; exact ⟨h, trivial⟩
+      cases hkl : keyLost s (keyOf hash) with
+      | true => trivial
+      | false =>
+        simp only [Bool.false_eq_true, ↓reduceIte]
+        cases hsp : AL.get sp.m (keyOf hash) with
+        | none => trivial
+        | some e =>
+          simp only
+          cases hte : e.tainted with
+          | true => trivial
+          | false => exact g2 e hsp hte hkl
+    · simp only [ho, hopn, Bool.not_false, ↓reduceIte]
+      refine ⟨h, ?_⟩
+      split <;> trivial
   | length hash d =>
-    unfold step specStep claim
+    unfold step specStep claimR claim
     simp only
     by_cases ho : s.isOpen = true
     · simp only [ho, hopn, Bool.not_true, Bool.false_eq_true, ↓reduceIte]
       obtain ⟨g1, g2⟩ := blockLength_ref env s sp h hash d
       refine ⟨g1, ?_⟩
-      cases hsp : AL.get sp.m (keyOf hash) with
-      | none => trivial
-      | some e =>
-        simp only
-        cases hte : e.tainted with
-        | true => trivial
-        | false => exact g2 e hsp hte
-    · simp only [ho, hopn, Bool.not_false, ↓reduceIte]; exact ⟨h, trivial⟩
+      cases hkl : keyLost s (keyOf hash) with
+      | true => trivial
+      | false =>
+        simp only [Bool.false_eq_true, ↓reduceIte]
+        cases hsp : AL.get sp.m (keyOf hash) with
+        | none => trivial
+        | some e =>
+          simp only
+          cases hte : e.tainted with
+          | true => trivial
+          | false => exact g2 e hsp hte hkl
+    · simp only [ho, hopn, Bool.not_false, ↓reduceIte]
+      refine ⟨h, ?_⟩
+      split <;> trivial
   | trusted hash =>
-    unfold step specStep claim
+    unfold step specStep claimR
     simp only
     by_cases ho : s.isOpen = true
     · simp only [ho, hopn, Bool.not_true, Bool.false_eq_true, ↓reduceIte]
@@ -964,7 +1087,7 @@ theorem step_ref (env : Env) (ok : EnvOK env) (s : State) (sp : Spec) (h : Ref e
         subst he'; exact ⟨e0, hsp, rfl, rfl, rfl⟩
     · simp only [ho, hopn, Bool.not_false, ↓reduceIte]; exact ⟨h, trivial⟩
   | invalid hash =>
-    unfold step specStep claim
+    unfold step specStep claimR
     simp only
     by_cases ho : s.isOpen = true
     · simp only [ho, hopn, Bool.not_true, Bool.false_eq_true, ↓reduceIte]
@@ -983,43 +1106,48 @@ theorem step_ref (env : Env) (ok : EnvOK env) (s : State) (sp : Spec) (h : Ref e
         subst he'; rfl
     · simp only [ho, hopn, Bool.not_false, ↓reduceIte]; exact ⟨h, trivial⟩
   | idle =>
-    unfold step specStep claim
+    unfold step specStep claimR
     simp only
     by_cases ho : s.isOpen = true
     · simp only [ho, hopn, Bool.not_true, Bool.false_eq_true, ↓reduceIte]
-      exact ⟨flush_ref env ok s sp h, trivial⟩
+      exact ⟨flush_ref env ok s sp h ho, trivial⟩
     · simp only [ho, hopn, Bool.not_false, ↓reduceIte]; exact ⟨h, trivial⟩
   | close =>
-    unfold step specStep claim
+    unfold step specStep claimR
     simp only
     by_cases ho : s.isOpen = true
     · simp only [ho, hopn, Bool.not_true, Bool.false_eq_true, ↓reduceIte]
-      have f := flush_ref env ok s sp h
-      exact ⟨⟨rfl, f.keep, f.idxspec, f.pos, f.cacheidx, f.cachedata, f.qseq, f.qdata, f.ent⟩, trivial⟩
+      have f := flush_ref env ok s sp h ho
+      exact ⟨⟨rfl, (fun hc => by cases hc), f.idxspec, f.pos, f.cacheidx, f.cachedata, f.qseq, f.qdata, f.ent⟩, trivial⟩
     · simp only [ho, hopn, Bool.not_false, ↓reduceIte]; exact ⟨h, trivial⟩
 
 theorem run_ref (env : Env) (ok : EnvOK env) : ∀ (ops : List Op) (s : State) (sp : Spec), Ref env s sp →
     (∀ op ∈ ops, op.isReopen = false ∧ op.sizeOK) →
-    AllHold (specRun sp ops) (run env s ops).2 := by
+    AllHold (specRunR env s sp ops) (run env s ops).2 := by
   intro ops
   induction ops with
   | nil => intro s sp _ _; exact trivial
   | cons op ops ih =>
     intro s sp h hno
     obtain ⟨h1, h2⟩ := step_ref env ok s sp h op (hno op (by simp)).1 (hno op (by simp)).2
-    unfold run specRun
+    unfold run specRunR
     exact ⟨h2, ih _ _ h1 (fun op' hop' => hno op' (by simp [hop']))⟩
 
-/-- a fresh store: `NewBlockDBExt` + `LoadBlockIndex` on an empty directory -/
-theorem reopen_fresh_ref (env : Env) (o : Opts) (hk : o.keep = 0) :
+/-- a fresh store: `NewBlockDBExt` + `LoadBlockIndex` on an empty directory (any options) -/
+theorem reopen_fresh_ref (env : Env) (o : Opts) :
     Ref env (reopen env {} o).1 { isOpen := true, m := [] } := by
   have e : (reopen env {} o).1.index = [] ∧ (reopen env {} o).1.cache = [] ∧ (reopen env {} o).1.queue = []
-      ∧ (reopen env {} o).1.isOpen = true ∧ (reopen env {} o).1.opts.keep = 0 := by
+      ∧ (reopen env {} o).1.isOpen = true ∧ (reopen env {} o).1.maxdatfileidx = 0 := by
     unfold reopen
-    simp [loadLoop, hk]
-    split <;> simp [hk]
+    simp [loadLoop]
   obtain ⟨e1, e2, e3, e4, e5⟩ := e
-  refine ⟨e4.symm, e5, ?_, ?_, ?_, ?_, ?_, ?_, ?_⟩
+  have e6 : ∃ f, AL.get (reopen env {} o).1.fs.dats 0 = some f := by
+    rw [reopen_fs]
+    have hm : (loadLoop env (({} : FS).idx.length / RECSIZE + 1) ({} : FS).idx {}).maxdatfileidx = 0 := by
+      simp [loadLoop]
+    rw [hm, (loadCleanup_keeps _ 0 _).2]
+    exact (createCur_keeps {} 0).2
+  refine ⟨e4.symm, fun _ => by rw [e5]; exact e6, ?_, ?_, ?_, ?_, ?_, ?_, ?_⟩
   · intro k r hr; rw [e1] at hr; simp [AL.get] at hr
   · intro k r hr; rw [e1] at hr; simp [AL.get] at hr
   · intro k c hc; rw [e2] at hc; simp [AL.get] at hc
